@@ -107,7 +107,7 @@ func (s *Sim) whoLocked() *ginfo {
 		return ng
 	}
 	// walk the chain of live goroutines (expensive; should be rare)
-	s.stats["harness.allparents_walks"]++
+	s.stat("harness.allparents_walks", 1)
 	parents := allParents()
 	cur := p
 	for depth := 0; depth < 32 && cur != 0; depth++ {
